@@ -893,8 +893,15 @@ func (le *LockEngine) call(fn *Fn, c *ast.CallExpr, f Facts, isDefer, isGo bool,
 						if nt := namedOf(le.p.TypeOf(fn, b)); nt != nil {
 							owner = nt.Obj().Name()
 						}
-						if _, key, ok := le.p.PathKey(fn, b); ok {
+						if root, key, ok := le.p.PathKey(fn, b); ok {
 							cr.Held = le.hasLock(f, key, owner+"."+lf.Name(), "W")
+							if !cr.Held {
+								// a helper that waits on behalf of its callers: the locker is theirs to hold
+								if rel := le.rel(fn, root, key); rel != "" && !le.insideUnjoinedGo(fn) && fn.Decl != nil && !fn.Decl.Name.IsExported() {
+									cr.Held = true
+									le.addNeed(fn, lockReq{Class: owner + "." + lf.Name(), Rel: rel, Mode: "W", Why: fmt.Sprintf("wait on %s in %s", types.ExprString(se.X), fn.Name), Pos: c.Pos(), Fn: fn, Kind: "load", Field: lf.Name()})
+								}
+							}
 						}
 					}
 				}
